@@ -171,28 +171,31 @@ var modelTable = map[string]*model{
 	"sort.Search":      {callsFunc: []int{1}},
 	"slices.Sort[...]": {mutElems: []int{0}},
 	// generic helpers of package slices (Go 1.21+), by what they do to their arguments
-	"slices.SortFunc[...]":       {mutElems: []int{0}, callsFunc: []int{1}},
-	"slices.SortStableFunc[...]": {mutElems: []int{0}, callsFunc: []int{1}},
-	"slices.Reverse[...]":        {mutElems: []int{0}},
-	"slices.Contains[...]":       {pure: true},
-	"slices.ContainsFunc[...]":   {callsFunc: []int{1}},
-	"slices.Index[...]":          {pure: true},
-	"slices.IndexFunc[...]":      {callsFunc: []int{1}},
-	"slices.Equal[...]":          {pure: true},
-	"slices.EqualFunc[...]":      {callsFunc: []int{2}},
-	"slices.Compare[...]":        {pure: true},
-	"slices.Max[...]":            {retDeep: []int{0}},
-	"slices.Min[...]":            {retDeep: []int{0}},
-	"slices.BinarySearch[...]":   {pure: true},
-	"slices.IsSorted[...]":       {pure: true},
-	"slices.Clone[...]":          {retFresh: true, freshHolds: []int{0}},
-	"slices.Compact[...]":        {mutElems: []int{0}, retAlias: []int{0}},
-	"slices.CompactFunc[...]":    {mutElems: []int{0}, retAlias: []int{0}, callsFunc: []int{1}},
-	"slices.Delete[...]":         {mutElems: []int{0}, retAlias: []int{0}},
-	"slices.Insert[...]":         {mutElems: []int{0}, retAlias: []int{0}, retFresh: true},
-	"slices.Grow[...]":           {retAlias: []int{0}, retFresh: true},
-	"slices.Clip[...]":           {retAlias: []int{0}},
-	"bytes.Clone":                {retFresh: true},
+	"slices.SortFunc[...]":                     {mutElems: []int{0}, callsFunc: []int{1}},
+	"slices.SortStableFunc[...]":               {mutElems: []int{0}, callsFunc: []int{1}},
+	"slices.Reverse[...]":                      {mutElems: []int{0}},
+	"slices.Contains[...]":                     {pure: true},
+	"slices.ContainsFunc[...]":                 {callsFunc: []int{1}},
+	"slices.Index[...]":                        {pure: true},
+	"slices.IndexFunc[...]":                    {callsFunc: []int{1}},
+	"slices.Equal[...]":                        {pure: true},
+	"slices.EqualFunc[...]":                    {callsFunc: []int{2}},
+	"slices.Compare[...]":                      {pure: true},
+	"slices.Max[...]":                          {retDeep: []int{0}},
+	"slices.Min[...]":                          {retDeep: []int{0}},
+	"slices.BinarySearch[...]":                 {pure: true},
+	"slices.IsSorted[...]":                     {pure: true},
+	"slices.Clone[...]":                        {retFresh: true, freshHolds: []int{0}},
+	"slices.Compact[...]":                      {mutElems: []int{0}, retAlias: []int{0}},
+	"slices.CompactFunc[...]":                  {mutElems: []int{0}, retAlias: []int{0}, callsFunc: []int{1}},
+	"slices.Delete[...]":                       {mutElems: []int{0}, retAlias: []int{0}},
+	"slices.Insert[...]":                       {mutElems: []int{0}, retAlias: []int{0}, retFresh: true},
+	"slices.Grow[...]":                         {retAlias: []int{0}, retFresh: true},
+	"slices.Clip[...]":                         {retAlias: []int{0}},
+	"bytes.Clone":                              {retFresh: true},
+	"(encoding/binary.bigEndian).AppendUint16": {retAlias: []int{1}, retFresh: true, mutElems: []int{1}},
+	"(encoding/binary.bigEndian).AppendUint32": {retAlias: []int{1}, retFresh: true, mutElems: []int{1}},
+	"(encoding/binary.bigEndian).AppendUint64": {retAlias: []int{1}, retFresh: true, mutElems: []int{1}},
 
 	// --- fmt / errors / misc: formatting calls String/Error/Format of operands; those
 	// methods of module types are C20 roots in their own right (modular argument)
@@ -220,46 +223,55 @@ var modelTable = map[string]*model{
 	"github.com/u-root/uio/rand.Read":        {mutElems: []int{0}, retFresh: true},
 	"github.com/u-root/uio/rand.ReadContext": {mutElems: []int{1}, retFresh: true},
 	// compiled regular expressions are read-only for matching (internal machine pools are not part of any input)
-	"(*regexp.Regexp).FindStringSubmatch": {retFresh: true},
-	"(*regexp.Regexp).MatchString":        {pure: true},
-	"(*regexp.Regexp).SubexpNames":        {retFresh: true},
-	"(*regexp.Regexp).FindString":         {pure: true},
-	"regexp.MustCompile":                  {retFresh: true},
-	"regexp.Compile":                      {retFresh: true},
-	"math/rand.Read":                      {mutElems: []int{0}, retFresh: true},
-	"time.Now":                            {pure: true},
-	"time.Since":                          {pure: true},
-	"time.After":                          {retFresh: true},
-	"time.NewTimer":                       {retFresh: true},
-	"time.Unix":                           {pure: true},
-	"time.Date":                           {pure: true},
-	"(time.Time).Sub":                     {pure: true},
-	"(time.Time).Add":                     {pure: true},
-	"(time.Time).Unix":                    {pure: true},
-	"(time.Time).Before":                  {pure: true},
-	"(time.Time).After":                   {pure: true},
-	"(time.Duration).Seconds":             {pure: true},
-	"(time.Duration).Round":               {pure: true},
-	"os.Hostname":                         {pure: true},
-	"os.Getenv":                           {pure: true},
-	"context.WithTimeout":                 {retFresh: true, freshHolds: []int{0}},
-	"context.WithCancel":                  {retFresh: true, freshHolds: []int{0}},
-	"context.WithDeadline":                {retFresh: true, freshHolds: []int{0}},
-	"context.Background":                  {retFresh: true},
-	"context.TODO":                        {retFresh: true},
-	"(*sync.Mutex).Lock":                  {mutElems: []int{0}},
-	"(*sync.Mutex).Unlock":                {mutElems: []int{0}},
-	"(*sync.RWMutex).Lock":                {mutElems: []int{0}},
-	"(*sync.RWMutex).Unlock":              {mutElems: []int{0}},
-	"(*sync.RWMutex).RLock":               {mutElems: []int{0}},
-	"(*sync.RWMutex).RUnlock":             {mutElems: []int{0}},
-	"(*sync.WaitGroup).Add":               {mutElems: []int{0}},
-	"(*sync.WaitGroup).Done":              {mutElems: []int{0}},
-	"(*sync.WaitGroup).Wait":              {mutElems: []int{0}},
-	"sync/atomic.CompareAndSwapUint32":    {mutElems: []int{0}},
-	"sync/atomic.LoadUint32":              {pure: true},
-	"sync/atomic.StoreUint32":             {mutElems: []int{0}},
-	"sync/atomic.AddUint32":               {mutElems: []int{0}},
+	"(*regexp.Regexp).FindStringSubmatch":  {retFresh: true},
+	"(*regexp.Regexp).MatchString":         {pure: true},
+	"(*regexp.Regexp).SubexpNames":         {retFresh: true},
+	"(*regexp.Regexp).FindString":          {pure: true},
+	"regexp.MustCompile":                   {retFresh: true},
+	"regexp.Compile":                       {retFresh: true},
+	"math/rand.Read":                       {mutElems: []int{0}, retFresh: true},
+	"time.Now":                             {pure: true},
+	"time.Since":                           {pure: true},
+	"time.After":                           {retFresh: true},
+	"time.NewTimer":                        {retFresh: true},
+	"time.Unix":                            {pure: true},
+	"time.Date":                            {pure: true},
+	"(time.Time).Sub":                      {pure: true},
+	"(time.Time).Add":                      {pure: true},
+	"(time.Time).Unix":                     {pure: true},
+	"(time.Time).Before":                   {pure: true},
+	"(time.Time).After":                    {pure: true},
+	"(time.Duration).Seconds":              {pure: true},
+	"(time.Duration).Round":                {pure: true},
+	"os.Hostname":                          {pure: true},
+	"os.Getenv":                            {pure: true},
+	"context.WithTimeout":                  {retFresh: true, freshHolds: []int{0}},
+	"context.WithCancel":                   {retFresh: true, freshHolds: []int{0}},
+	"context.WithDeadline":                 {retFresh: true, freshHolds: []int{0}},
+	"context.Background":                   {retFresh: true},
+	"context.TODO":                         {retFresh: true},
+	"(*sync.Mutex).Lock":                   {mutElems: []int{0}},
+	"(*sync.Mutex).Unlock":                 {mutElems: []int{0}},
+	"(*sync.RWMutex).Lock":                 {mutElems: []int{0}},
+	"(*sync.RWMutex).Unlock":               {mutElems: []int{0}},
+	"(*sync.RWMutex).RLock":                {mutElems: []int{0}},
+	"(*sync.RWMutex).RUnlock":              {mutElems: []int{0}},
+	"(*sync.WaitGroup).Add":                {mutElems: []int{0}},
+	"(*sync.WaitGroup).Done":               {mutElems: []int{0}},
+	"(*sync.WaitGroup).Wait":               {mutElems: []int{0}},
+	"sync/atomic.CompareAndSwapUint32":     {mutElems: []int{0}},
+	"sync/atomic.LoadUint32":               {pure: true},
+	"sync/atomic.StoreUint32":              {mutElems: []int{0}},
+	"sync/atomic.AddUint32":                {mutElems: []int{0}},
+	"(*sync/atomic.Bool).CompareAndSwap":   {mutElems: []int{0}},
+	"(*sync/atomic.Bool).Load":             {pure: true},
+	"(*sync/atomic.Bool).Store":            {mutElems: []int{0}},
+	"(*sync/atomic.Uint32).CompareAndSwap": {mutElems: []int{0}},
+	"(*sync/atomic.Uint32).Load":           {pure: true},
+	"(*sync/atomic.Uint32).Store":          {mutElems: []int{0}},
+	"(*sync/atomic.Int32).CompareAndSwap":  {mutElems: []int{0}},
+	"(*sync/atomic.Int32).Load":            {pure: true},
+	"(*sync/atomic.Int32).Store":           {mutElems: []int{0}},
 }
 
 // externalInvokeModels: interface methods whose implementations live outside
